@@ -31,6 +31,8 @@ type c16Variant struct {
 	onWayNodes, orient bool
 }
 
+// two more variants, NP / WP, are added per input: only a subset of the members is annotated
+
 var c16Variants = []c16Variant{
 	{"N", false, false}, // node objects, no orientation
 	{"W", true, false},  // annotated way nodes, no orientation
@@ -306,7 +308,7 @@ type c16Ctx struct {
 }
 
 func c16NewCtx(c fw.Case) *c16Ctx {
-	gen16 := c.Kind == "rand" || c.Kind == "grid"
+	gen16 := c.Kind == "rand" || c.Kind == "grid" || c.Kind == "shared"
 	return &c16Ctx{Result: fw.NewResult(), sigs: map[string]bool{}, keys: map[string]bool{}, members: map[string]bool{},
 		dedupeSigs: !gen16, r: gen.New(c.Seed^0x16c16, "c16pre/"+c.Kind), degrade: gen16}
 }
@@ -395,6 +397,43 @@ func (c *c16Ctx) Put(set, member string) {
 	}
 	c.members[set+"\x00"+member] = true
 	c.Result.Put(set, member)
+}
+
+// c16RunVariant converts the instance in one input shape (coordinates on node objects or on way
+// nodes; members annotated as in pre, nil = none) and judges the result against the truth.
+func c16RunVariant(res *c16Ctx, in *polyg.Instance, lookup map[orb.Point]int, shape, name string, onWayNodes bool, pre []orb.Orientation,
+	detail func(map[string]any) map[string]any) (canon, raw string, usable bool) {
+	obs := c16Convert(in.OSMPre(onWayNodes, pre))
+	res.Eval(shape + "/" + name)
+	for _, p := range obs.polys {
+		res.Event(int64(len(p)))
+	}
+	res.Add("other_features_seen_not_asserted", int64(obs.nOther))
+	issues := c16Judge(in, lookup, obs)
+	if len(issues) > 0 {
+		extra := map[string]any{"variant": name, "issues": issues, "observed_type": obs.gtype, "observed_polygons": obs.polys}
+		if pre != nil {
+			pm := map[string]int{}
+			for i := range in.Pieces {
+				pm[fmt.Sprint(in.Pieces[i].ID)] = int(pre[i])
+			}
+			extra["member_orientation_by_way"] = pm
+		}
+		res.Violate("C16/"+issues[0].Class+"/"+name+"/"+shape,
+			fmt.Sprintf("variant %s: %s (%d issues)", name, issues[0].What, len(issues)), detail(extra))
+	}
+	if obs.nPoly == 1 && obs.panicked == "" && obs.err == nil {
+		return c16Canon(obs.polys), c16Raw(obs.polys), true
+	}
+	return "", "", false
+}
+
+func c16Lookup(in *polyg.Instance) map[orb.Point]int {
+	lookup := make(map[orb.Point]int, len(in.Verts))
+	for i, v := range in.Verts {
+		lookup[orb.Point{v.P.Lon(), v.P.Lat()}] = i
+	}
+	return lookup
 }
 
 // c16Check runs the whole oracle on one instance. family prefixes signatures and keys of the
@@ -528,35 +567,44 @@ func c16Check(res *c16Ctx, in *polyg.Instance, family string) {
 		c16RunDegraded(res, in, shape, detail)
 	}
 
-	// (2) the four input variants against the truth
-	canon := make([]string, len(c16Variants))
-	raw := make([]string, len(c16Variants))
-	usable := make([]bool, len(c16Variants))
-	for vi, v := range c16Variants {
-		obs := c16Convert(in.OSM(v.onWayNodes, v.orient))
-		res.Eval(shape + "/" + v.name)
-		for _, p := range obs.polys {
-			res.Event(int64(len(p)))
+	// (2) the input variants against the truth: four from the statement plus two in which only
+	// a random non-empty proper subset of the members carries its (true) orientation
+	variants := c16Variants
+	var partial []orb.Orientation
+	if np := len(in.Pieces); np >= 2 {
+		partial = make([]orb.Orientation, np)
+		for ok := false; !ok; {
+			n := 0
+			for i := range partial {
+				partial[i] = 0
+				if res.r.Bool() {
+					partial[i] = in.Pieces[i].Dir
+					n++
+				}
+			}
+			ok = n > 0 && n < np
 		}
-		res.Add("other_features_seen_not_asserted", int64(obs.nOther))
-		issues := c16Judge(in, lookup, obs)
-		if len(issues) > 0 {
-			res.Violate("C16/"+issues[0].Class+"/"+v.name+"/"+shape,
-				fmt.Sprintf("variant %s: %s (%d issues)", v.name, issues[0].What, len(issues)),
-				detail(map[string]any{"variant": v.name, "issues": issues, "observed_type": obs.gtype, "observed_polygons": obs.polys}))
+		variants = append(append([]c16Variant(nil), c16Variants...), c16Variant{"NP", false, true}, c16Variant{"WP", true, true})
+	}
+	canon := make([]string, len(variants))
+	raw := make([]string, len(variants))
+	usable := make([]bool, len(variants))
+	for vi, v := range variants {
+		var pre []orb.Orientation
+		if v.orient {
+			pre = in.Dirs()
 		}
-		if obs.nPoly == 1 && obs.panicked == "" && obs.err == nil {
-			usable[vi] = true
-			canon[vi] = c16Canon(obs.polys)
-			raw[vi] = c16Raw(obs.polys)
+		if len(v.name) == 2 && v.name[1] == 'P' {
+			pre = partial
 		}
+		canon[vi], raw[vi], usable[vi] = c16RunVariant(res, in, lookup, shape, v.name, v.onWayNodes, pre, detail)
 	}
 	// (3) the result is the same across the variants (up to start vertex / list order)
-	for vi := 1; vi < len(c16Variants); vi++ {
+	for vi := 1; vi < len(variants); vi++ {
 		if usable[0] && usable[vi] && canon[0] != canon[vi] {
-			res.Violate("C16/variant-diff/N~"+c16Variants[vi].name+"/"+shape,
-				fmt.Sprintf("variants N and %s give different geometries", c16Variants[vi].name),
-				detail(map[string]any{"N": canon[0], c16Variants[vi].name: canon[vi]}))
+			res.Violate("C16/variant-diff/N~"+variants[vi].name+"/"+shape,
+				fmt.Sprintf("variants N and %s give different geometries", variants[vi].name),
+				detail(map[string]any{"N": canon[0], variants[vi].name: canon[vi]}))
 		}
 	}
 	// observed, not asserted: are the results even literally identical?
@@ -825,6 +873,264 @@ func c16EnumGrid(res *c16Ctx, split bool, perms int) int {
 	return count
 }
 
+// enum-partial: square outer in three ways and a quadrilateral hole in two ways; every subset
+// of the five members carries its (true) orientation x every member order x the given reversal
+// masks; converted with coordinates on node objects and on way nodes.
+func c16EnumPartial(res *c16Ctx, revMasks []uint) int {
+	t := &polyg.Truth{Polys: []polyg.Poly{{
+		Outer: c16Gon(254_000_000, -101_000_000, 300_000, 4, 0.1, false),
+		Holes: [][]polyg.Pt{c16Gon(254_020_000, -101_010_000, 90_000, 4, 0.9, true)},
+	}}, Origin: "far"}
+	t.Normalise()
+	if err := t.Validate(4); err != nil {
+		panic("c16 enum-partial truth invalid: " + err.Error())
+	}
+	nodeIDs, wayIDs := c16IDs(64)
+	count := 0
+	for _, rev := range revMasks {
+		base := polyg.Assemble(t, [][]polyg.RingCut{{c16MaskCut(4, 0b1011, rev&7), c16MaskCut(4, 0b0101, rev>>3)}}, nodeIDs, wayIDs)
+		lookup := c16Lookup(base)
+		np := len(base.Pieces)
+		c16Perms(np, func(p []int) {
+			in := base.WithOrder(p)
+			shape := "enum-partial/" + in.Shape()
+			detail := func(extra map[string]any) map[string]any {
+				d := in.Describe()
+				for k, v := range extra {
+					d[k] = v
+				}
+				return d
+			}
+			for sub := uint(0); sub < 1<<uint(np); sub++ {
+				pre := make([]orb.Orientation, np)
+				for i := range pre {
+					if sub&(1<<uint(i)) != 0 {
+						pre[i] = in.Pieces[i].Dir
+					}
+				}
+				name := "P"
+				if sub == 0 {
+					name = ""
+				} else if sub == 1<<uint(np)-1 {
+					name = "O"
+				}
+				c16RunVariant(res, in, lookup, shape, "N"+name, false, pre, detail)
+				c16RunVariant(res, in, lookup, shape, "W"+name, true, pre, detail)
+				count++
+			}
+		})
+	}
+	return count
+}
+
+// c16CheckShared judges a set of relations sharing border ways: all relations go through ONE
+// Convert call (in the given order); every relation must come out as its own truth, whatever
+// else is in the input. Features are attributed to relations by geometry (a feature belongs to
+// the relation whose truth it is); the feature's id property is only used to pick the feature
+// to describe when something is wrong.
+func c16CheckShared(res *c16Ctx, set *polyg.SharedSet, relOrder []int) {
+	nrel := len(set.Rels)
+	var pat []string
+	for _, g := range set.Groups {
+		pat = append(pat, fmt.Sprint(len(g)))
+	}
+	sort.Strings(pat)
+	holes := 0
+	for _, in := range set.Rels {
+		for i := range in.T.Polys {
+			holes += len(in.T.Polys[i].Holes)
+		}
+	}
+	shape := fmt.Sprintf("shared/R%d/o%s/h%d", nrel, strings.Join(pat, ""), c16Cap(holes, 3))
+	lookups := make([]map[orb.Point]int, nrel)
+	for i, in := range set.Rels {
+		lookups[i] = c16Lookup(in)
+	}
+	describe := func(extra map[string]any) map[string]any {
+		d := map[string]any{"relations_in_input_order": relOrder, "shared_ways": set.SharedWays, "regions_per_relation": set.Groups}
+		for i, in := range set.Rels {
+			d[fmt.Sprintf("relation_%d_id_%d", i, in.RelID)] = in.Describe()
+		}
+		for k, v := range extra {
+			d[k] = v
+		}
+		return d
+	}
+	// partial annotation: per relation a random subset of the members
+	partial := make([][]orb.Orientation, nrel)
+	for i, in := range set.Rels {
+		partial[i] = make([]orb.Orientation, len(in.Pieces))
+		for k := range partial[i] {
+			if res.r.Bool() {
+				partial[i][k] = in.Pieces[k].Dir
+			}
+		}
+	}
+	type variant struct {
+		name       string
+		onWayNodes bool
+		mode       int // 0 none, 1 all, 2 partial
+	}
+	for _, v := range []variant{{"N", false, 0}, {"W", true, 0}, {"NO", false, 1}, {"WO", true, 1}, {"NP", false, 2}, {"WP", true, 2}} {
+		parts := make([]*osm.OSM, 0, nrel)
+		for _, ri := range relOrder {
+			in := set.Rels[ri]
+			var pre []orb.Orientation
+			switch v.mode {
+			case 1:
+				pre = in.Dirs()
+			case 2:
+				pre = partial[ri]
+			}
+			parts = append(parts, in.OSMPre(v.onWayNodes, pre))
+		}
+		type feat struct {
+			polys [][]orb.Ring
+			gtype string
+			id    int
+		}
+		var feats []feat
+		pan, errText := "", ""
+		func() {
+			defer func() {
+				if x := recover(); x != nil {
+					pan = fmt.Sprintf("%v\n%s", x, debug.Stack())
+				}
+			}()
+			fc, err := osmgeojson.Convert(polyg.MergeOSM(parts))
+			if err != nil {
+				errText = err.Error()
+				return
+			}
+			for _, f := range fc.Features {
+				ft := feat{id: -1}
+				if id, ok := f.Properties["id"].(int); ok && f.Properties["type"] == "relation" {
+					ft.id = id
+				}
+				switch g := f.Geometry.(type) {
+				case orb.Polygon:
+					ft.gtype, ft.polys = "Polygon", [][]orb.Ring{[]orb.Ring(g)}
+				case orb.MultiPolygon:
+					ft.gtype = "MultiPolygon"
+					for _, p := range g {
+						ft.polys = append(ft.polys, []orb.Ring(p))
+					}
+				default:
+					continue
+				}
+				feats = append(feats, ft)
+			}
+		}()
+		res.Eval(shape + "/" + v.name)
+		if pan != "" {
+			res.Violate("C16/panic/"+v.name+"/"+shape, "Convert panicked on relations sharing border ways", describe(map[string]any{"panic": pan}))
+			continue
+		}
+		if errText != "" {
+			res.Violate("C16/convert-error/"+v.name+"/"+shape, "Convert failed on relations sharing border ways: "+errText, describe(nil))
+			continue
+		}
+		used := make([]bool, len(feats))
+		for pos, ri := range relOrder {
+			in := set.Rels[ri]
+			res.Event(int64(len(in.Pieces)))
+			matched := false
+			for fi, ft := range feats {
+				if used[fi] {
+					continue
+				}
+				if len(c16Judge(in, lookups[ri], c16Obs{polys: ft.polys, gtype: ft.gtype, nPoly: 1})) == 0 {
+					used[fi], matched = true, true
+					break
+				}
+			}
+			if matched {
+				continue
+			}
+			// describe: the feature that claims to be this relation, else any unused one
+			pick := -1
+			for fi, ft := range feats {
+				if !used[fi] && ft.id == int(in.RelID) {
+					pick = fi
+				}
+			}
+			for fi := range feats {
+				if pick < 0 && !used[fi] {
+					pick = fi
+				}
+			}
+			which := "first"
+			if pos > 0 {
+				which = "later"
+			}
+			if pick < 0 {
+				res.Violate("C16/feature-count-0/"+v.name+"/"+shape+"/"+which, fmt.Sprintf("variant %s: no feature has the geometry of relation %d (%s in the input)", v.name, in.RelID, which),
+					describe(map[string]any{"variant": v.name, "relation": in.RelID}))
+				continue
+			}
+			used[pick] = true
+			issues := c16Judge(in, lookups[ri], c16Obs{polys: feats[pick].polys, gtype: feats[pick].gtype, nPoly: 1})
+			res.Violate("C16/"+issues[0].Class+"/"+v.name+"/"+shape+"/"+which,
+				fmt.Sprintf("variant %s, relation %d (%s of %d in the input): %s (%d issues)", v.name, in.RelID, which, nrel, issues[0].What, len(issues)),
+				describe(map[string]any{"variant": v.name, "relation": in.RelID, "issues": issues, "observed_polygons": feats[pick].polys, "observed_type": feats[pick].gtype}))
+		}
+		for fi := range feats {
+			if !used[fi] {
+				res.Violate("C16/feature-extra/"+v.name+"/"+shape, fmt.Sprintf("variant %s: a polygonal feature belongs to none of the %d relations", v.name, nrel),
+					describe(map[string]any{"variant": v.name, "observed_polygons": feats[fi].polys}))
+			}
+		}
+	}
+	res.Add("shared_inputs", 1)
+	res.Add("shared_relations_converted_together", int64(nrel))
+	res.Put("shapes", shape)
+}
+
+// c16AnnotateShared annotates every relation of the set on its own (annotate.Relations treats
+// its argument as versions of one relation) over one datasource holding every way once.
+func c16AnnotateShared(res *c16Ctx, set *polyg.SharedSet) {
+	for ri, in := range set.Rels {
+		ds := &osm.HistoryDatasource{Ways: map[osm.WayID]osm.Ways{}}
+		for _, other := range set.Rels {
+			_, d := other.History()
+			for id, ws := range d.Ways {
+				ds.Ways[id] = ws
+			}
+		}
+		rel, _ := in.History()
+		var err error
+		pan := ""
+		func() {
+			defer func() {
+				if x := recover(); x != nil {
+					pan = fmt.Sprintf("%v\n%s", x, debug.Stack())
+				}
+			}()
+			err = annotate.Relations(context.Background(), osm.Relations{rel}, ds)
+		}()
+		shape := fmt.Sprintf("shared/R%d", len(set.Rels))
+		res.Eval(shape + "/A")
+		if pan != "" || err != nil {
+			res.Violate("C16/annotate-error/"+shape, fmt.Sprintf("annotate.Relations failed on relation %d of a shared-border set: %v %s", ri, err, pan), in.Describe())
+			continue
+		}
+		got := map[int64]orb.Orientation{}
+		for _, m := range rel.Members {
+			if m.Type == osm.TypeWay {
+				got[m.Ref] = m.Orientation
+			}
+		}
+		for i := range in.Pieces {
+			pc := &in.Pieces[i]
+			res.Event(1)
+			if got[int64(pc.ID)] != pc.Dir {
+				res.Violate("C16/orientation-"+pc.Role+"/"+shape, fmt.Sprintf("way %d is marked %d in relation %d but runs %d around that relation's ring", pc.ID, got[int64(pc.ID)], in.RelID, pc.Dir), in.Describe())
+				break
+			}
+		}
+	}
+}
+
 func c16Exec(c fw.Case) *fw.Result {
 	res := c16NewCtx(c)
 	switch c.Kind {
@@ -892,6 +1198,34 @@ func c16Exec(c fw.Case) *fw.Result {
 		if res.Sample == nil {
 			res.Sample = map[string]any{"grid_truths": n}
 		}
+	case "shared":
+		n := int(c.Int("n"))
+		for i := 0; i < n; i++ {
+			r := gen.New(gen.Sub(c.Seed, "c16shared", i), "c16s")
+			set := polyg.GenerateShared(r)
+			c16AnnotateShared(res, set)
+			// every order of the relations in the input
+			c16Perms(len(set.Rels), func(p []int) { c16CheckShared(res, set, append([]int(nil), p...)) })
+			res.Add("shared_sets", 1)
+			res.Add("shared_border_ways", int64(set.SharedWays))
+			if res.Sample == nil && len(set.Rels) == 2 && len(set.Rels[0].Verts)+len(set.Rels[1].Verts) <= 16 {
+				res.Sample = map[string]any{"relation_0": set.Rels[0].Describe(), "relation_1": set.Rels[1].Describe(), "shared_ways": set.SharedWays}
+			}
+		}
+		if res.Sample == nil {
+			res.Sample = map[string]any{"shared_sets": n}
+		}
+	case "enum-partial":
+		var masks []uint
+		for m := c.Int("lo"); m <= c.Int("hi"); m++ {
+			masks = append(masks, uint(m))
+		}
+		if c.Int("quick") == 1 {
+			masks = []uint{0, 0b11111, 0b01010, 0b10101, 0b00110, 0b11001}
+		}
+		cnt := c16EnumPartial(res, masks)
+		res.Sample = map[string]any{"family": "outer in 3 ways + hole in 2 ways: every subset of members annotated x every member order x reversal masks", "reversal_masks": masks, "inputs": cnt}
+		res.Add("enumerated_inputs", int64(cnt))
 	case "enum-grid":
 		cnt := c16EnumGrid(res, c.Int("split") == 1, int(c.Int("perms")))
 		res.Sample = map[string]any{"family": "three outers in a row on an integer lattice (square with hole, hexagon, staircase with hole), hole vertices at the latitudes of pass-through vertices of the outers east of them; member orders enumerated", "split": c.Int("split"), "inputs": cnt}
@@ -918,6 +1252,7 @@ func init() {
 		Level: "exploration",
 		Rule: "generated ground truths (1-4 star-shaped outers in distinct grid cells, 0-3 holes each, validated by the generator's own exact point-in-polygon / segment-intersection tests), every ring cut at 1..n vertices, pieces reversed at random, members / ways / nodes shuffled; " +
 			"each truth is converted in four input variants (N node objects, W located way nodes, NO/WO the same with truth-derived member orientations) and annotated four times: members without annotations (A), pre-annotated with the true directions (A=), with the opposite ones (A-), with a mix of right / wrong / none (A~); plus seed-independent exhaustive families (single n-gon: every cut set x reversal mask x member order; outer+hole; two outers). " +
+			"Every input is also converted with only a random subset of members annotated (NP, WP; enum-partial: all subsets x orders), and sets of 2-4 relations sharing border ways (kind shared) go through one Convert call in every relation order, each relation judged against its own truth. " +
 			"A signature is (family, #outers, holes per outer, cut classes present, reversal class, +node member, variant); distinct_nontrivial counts distinct signatures.",
 		Assumptions: []string{
 			"'the result is the same' is read up to ring start vertex, order of holes within a polygon and order of polygons; winding, closure and the cyclic vertex sequence are compared exactly (float64 bit patterns)",
@@ -959,6 +1294,20 @@ func init() {
 			}
 			for i := 0; i < gridCases; i++ {
 				cs = append(cs, fw.Case{Kind: "grid", Seed: gen.Sub(seed, "c16gridcase", i), P: map[string]int64{"n": int64(gridPer)}})
+			}
+			sharedCases, sharedPer := 20, 15
+			if tier == "thorough" {
+				sharedCases, sharedPer = 300, 60
+			}
+			for i := 0; i < sharedCases; i++ {
+				cs = append(cs, fw.Case{Kind: "shared", Seed: gen.Sub(seed, "c16sharedcase", i), P: map[string]int64{"n": int64(sharedPer)}})
+			}
+			if tier == "thorough" {
+				for lo := int64(0); lo < 32; lo += 4 {
+					cs = append(cs, fw.Case{Kind: "enum-partial", P: map[string]int64{"lo": lo, "hi": lo + 3}})
+				}
+			} else {
+				cs = append(cs, fw.Case{Kind: "enum-partial", P: map[string]int64{"quick": 1}})
 			}
 			cs = append(cs, fw.Case{Kind: "enum-grid", P: map[string]int64{"split": 0}})
 			if tier == "thorough" {
